@@ -16,7 +16,7 @@ func init() {
 		Rule: "one case = one generated program (filters, joins, GROUP BY with/without ORDER BY, DISTINCT, set operators, LISTAGG/JSON_AGG, analytic functions, ORDER BY with ties + LIMIT, and DML whose result is committed: INSERT..SELECT, UPDATE, DELETE, REPLACE, CREATE TABLE AS, ALTER ADD) over tables whose sizes straddle the goroutine-split thresholds; " +
 			"it is executed by the real binary once with --cpu 1 and then again with --cpu 1 and with --cpu 2,3,4,8,16, twice each, with seeded scheduling jitter in the worker goroutines; stdout bytes and every file in the directory must be identical. " +
 			"non-trivial = at least one cpu>1 execution really ran a section on >1 worker goroutine (observed through the hook trace); distinct = program digest.",
-		Quick: 96, Thorough: 2400, FloorQuick: 60, FloorThorough: 1500,
+		Quick: 96, Thorough: 6000, FloorQuick: 60, FloorThorough: 3700,
 		CaseTimeout: 10 * time.Minute,
 		Assumptions: []string{"programs run with --quiet: operation-log lines ('N records updated on ...') are not query results", "no RAND/NOW-like functions and no assignments inside queries are generated (excluded by the statement)"},
 		Fn:          c12Case,
